@@ -7,7 +7,8 @@ import os
 from common import *
 
 IMPORTS = "Tree.Model"
-KINDS = {0: "spawn", 1: "spawn_linked", 2: "spawn_instant", 3: "spawn_linked_instant"}
+KINDS = {0: "spawn", 1: "spawn_linked", 2: "spawn_instant", 3: "spawn_linked_instant", 4: "ActorCell::spawn_linked"}
+# kind + 10: the actor keeps the default handle_supervisor_evt
 CAUSES = ["stop", "kill", "drain", "err", "panic", "abort"]
 CHILD_STATES = ["pre", "poststart", "running", "handler", "draining", "poststop", "stopped"]
 
@@ -35,7 +36,12 @@ def op_term(o, n):
     k = o[0]
     if k == "spawn":
         _, a, kind, sup, pre, post, ps = o
-        return f"OSpawn {a} {'None' if sup is None else '(Some ' + str(sup) + ')'} {b(pre)} {b(post)} {b(ps)}"
+        t = f"OSpawn {a} {'None' if sup is None else '(Some ' + str(sup) + ')'} {b(pre)} {b(post)} {b(ps)}"
+        return t + (f"; ODefSup {a}" if kind >= 10 else "")
+    if k in ("stopkids", "stopkidsw"):
+        return f"OStopKids {o[1]}"
+    if k in ("drainkids", "drainkidsw"):
+        return f"ODrainKids {o[1]}"
     if k == "send":
         return f"OSend {o[1]} " + {"blk": "MBlock", "err": "MErr", "panic": "MPanic"}[o[2]]
     if k in ("stop", "kill", "drain", "abort", "dropstart"):
@@ -75,17 +81,23 @@ class Builder:
         if settle:
             self.ops.append(("settle",))
 
-    def spawn(self, sup, kind=None, pre=False, post=False, ps=False, rng=None, settle=True):
+    def spawn(self, sup, kind=None, pre=False, post=False, ps=False, rng=None, settle=True, defsup=None):
         a = self.next
         if a >= self.n:
             return None
         self.next += 1
         if kind is None:
-            kind = rng.choice([1, 1, 3]) if sup is not None else rng.choice([0, 0, 2])
+            kind = rng.choice([1, 1, 3, 4]) if sup is not None else rng.choice([0, 0, 2])
         if sup is None and kind in (1, 3):
             kind -= 1
+        if sup is None and kind == 4:
+            kind = 0
         if sup is not None and kind in (0, 2):
             kind += 1
+        if defsup is None:
+            defsup = rng is not None and rng.random() < 0.2
+        if defsup:
+            kind += 10
         self.sup[a], self.kind[a], self.flags[a] = sup, kind, (pre, post, ps)
         self.depth[a] = 0 if sup is None else self.depth.get(sup, 0) + 1
         self.emit("spawn", a, kind, sup, pre, post, ps, settle=settle)
@@ -280,6 +292,53 @@ def rng_kind(i):
     return (0, 2)[i % 2]
 
 
+def gen_children_wide():
+    """stop_children / drain_children (_and_wait) on a supervisor whose children are in assorted statuses,
+    followed by link attempts into the now draining/stopping children, and by the supervisor's own exit;
+    and the default supervision handler: a child exits by each cause below a chain of supervisors that
+    keep the library's default handle_supervisor_evt (each stops, and takes its other children with it)"""
+    import random
+    rng = random.Random(23)
+    out = []
+    for op in ("stopkids", "drainkids", "stopkidsw", "drainkidsw"):
+        for variant in range(6):
+            bld = Builder(8)
+            p = bld.spawn(None, kind=0, ps=variant % 2 == 1, defsup=False)
+            kids = []
+            for st_ in rng.sample(["running", "handler", "poststop", "poststart", "pre", "draining", "stopped"], 3):
+                c = put_child_in_state(bld, p, st_, rng)
+                if c is not None:
+                    kids.append(c)
+            if kids and bld.next < 8:
+                bld.spawn(kids[0], kind=4, defsup=False)
+            other = bld.spawn(None, kind=0, defsup=False)
+            bld.emit(op, p)
+            for c in kids[:2]:
+                bld.emit("link", other, c)          # a draining / stopping child must not adopt
+            bld.emit("open", kids[0], "h")
+            do_exit(bld, p, rng.choice(CAUSES))
+            bld.emit("flush")
+            out.append(bld.scenario(f"kids:{op}:{variant}"))
+    for cause in CAUSES:
+        for depth in (1, 2):
+            for parked in (False, True):
+                bld = Builder(8)
+                top = bld.spawn(None, kind=0, defsup=True, ps=parked)
+                mid = top if depth == 1 else bld.spawn(top, kind=rng.choice([1, 4]), defsup=True)
+                sib = bld.spawn(mid, kind=1, defsup=False)
+                bld.spawn(sib, kind=3, defsup=False)
+                victim = bld.spawn(mid, kind=rng.choice([1, 3, 4]), defsup=False, ps=rng.random() < 0.3)
+                up = bld.spawn(top, kind=1, defsup=False)
+                do_exit(bld, victim, cause)
+                bld.emit("open", victim, "ps")
+                if parked:
+                    bld.emit("link", up, sib)
+                    bld.emit("open", top, "ps")
+                bld.emit("flush")
+                out.append(bld.scenario(f"defsup:{cause}:{depth}:{'parked' if parked else 'free'}"))
+    return out
+
+
 def gen_random(rng, count):
     out = []
     for _ in range(count):
@@ -330,6 +389,8 @@ def gen_random(rng, count):
                 c = rng.choice(live)
                 p = bld.sup.get(c) if rng.random() < 0.7 and bld.sup.get(c) is not None else a
                 bld.emit("unlink", c, p)
+            elif r < 0.74:
+                bld.emit(rng.choice(["stopkids", "drainkids", "stopkidsw", "drainkidsw"]), a)
             elif r < 0.86:
                 bld.emit("open", a, rng.choice(["pre", "post", "h", "ps", "ps"]))
             else:
@@ -466,7 +527,7 @@ def run(chk):
                 s["tag"] = "replay"
                 scns.append(s)
     else:
-        scns = load_corpus() + gen_systematic() + gen_stopping_middle() + gen_exit_during_pre_start() + gen_link_into_closed()
+        scns = load_corpus() + gen_systematic() + gen_stopping_middle() + gen_exit_during_pre_start() + gen_link_into_closed() + gen_children_wide()
         scns += gen_targeted(chk.rng, (250 if quick else 3000) * factor)
         scns += gen_random(chk.rng, (250 if quick else 3000) * factor)
 
